@@ -47,6 +47,7 @@ fn main() {
     let mut only = None;
     let mut part = String::new();
     let mut scale = 100u64;
+    let mut threads: Option<usize> = None;
     let mut i = 3;
     while i < args.len() {
         let val = args.get(i + 1).cloned().unwrap_or_default();
@@ -58,6 +59,7 @@ fn main() {
             "--replay-dir" => replay_dir = Some(val),
             "--part" => part = val,
             "--scale" => scale = val.parse().unwrap_or(100),
+            "--threads" => threads = val.parse().ok(),
             "--only" => {
                 let mut it = val.rsplitn(2, ':');
                 let idx = it.next().and_then(|s| s.parse().ok()).unwrap_or(0);
@@ -77,6 +79,9 @@ fn main() {
     ctx.out = ctx_out.map(Into::into);
     ctx.only = only;
     ctx.scale = scale;
+    if let Some(t) = threads {
+        ctx.threads = t.max(1);
+    }
     if let Some(d) = replay_dir {
         ctx.replay_dir = d.into();
     }
